@@ -7,7 +7,7 @@ Local Open Scope R_scope.
 Lemma tie_jrot2c_p0111 p q x y : jrot2c_p0111_pc (OO:=ROps) p q x y -> jc_spec p q x y (jrot2c_p0111 (OO:=ROps) p q x y).
 Proof.
   unfold jc_spec. autounfold with gen; ops_R. cbv beta iota zeta delta [nth firstn skipn].
-  set (sq := 1 / 2 * (p - q)) in *. fold (pnorm sq x (- y)). intros [Hp [Hq [Hx Hy]]].
+  set (sq := 1 / 2 * (p - q)) in *. rewrite ?(hyp_pnorm sq x (- y)). intros [Hp [Hq [Hx Hy]]].
   assert (Ep : p = q + 2 * sq) by (unfold sq; field). clearbody sq. subst p.
   assert (Zy : y = 0) by lra. subst x y.
   pose proof (pnorm_sq sq 0 (- 0)) as Sp. pose proof (pnorm_ge sq 0 (- 0)) as Pp.
@@ -21,7 +21,7 @@ Qed.
 Lemma tie_jrot2c_p1 p q x y : jrot2c_p1_pc (OO:=ROps) p q x y -> jc_spec p q x y (jrot2c_p1 (OO:=ROps) p q x y).
 Proof.
   unfold jc_spec. autounfold with gen; ops_R. cbv beta iota zeta delta [nth firstn skipn].
-  set (sq := 1 / 2 * (p - q)) in *. fold (pnorm sq x (- y)). intros Hp.
+  set (sq := 1 / 2 * (p - q)) in *. rewrite ?(hyp_pnorm sq x (- y)). intros Hp.
   assert (Ep : p = q + 2 * sq) by (unfold sq; field). clearbody sq. subst p.
   pose proof (pnorm_sq sq x (- y)) as Sp. rewrite Hp in Sp.
   assert (Z1 : sq = 0) by nra. assert (Z2 : x = 0) by nra. assert (Z3 : y = 0) by nra. subst sq x y.
